@@ -1,7 +1,7 @@
 (* C02 - proofs: the execution log is the declared order, every registered cleanup runs exactly
    once, nothing is left, patched attributes are restored, a second run repeats the first. *)
 From Coq Require Import Permutation.
-From TT Require Import Lib.Base Gen.Handlers Model.Run Spec.Run Spec.C02 Corr.C02 Proof.RunCore.
+From TT Require Import Lib.Base Gen.Handlers Model.Run Spec.Run Spec.C02 Corr.C02 Proof.RunCore Proof.RunExtra.
 
 (* ---------- comparisons ---------- *)
 Lemma lev_eqb_spec a b : lev_eqb a b = true <-> a = b.
@@ -53,9 +53,30 @@ Qed.
 Lemma outs_of_calls t : outs_of t = outs_of (calls t).
 Proof. induction t as [|e r IH]; simpl; [reflexivity|]. destruct e; simpl; rewrite ?IH; reflexivity. Qed.
 
-(* which outcome a run started with force_failure = f0 reports *)
-Definition outs_for (p : prog) (f0 : bool) : list outcome :=
-  match fst (verdict p f0) with Some o => [o] | None => [] end.
+Lemma outs_of_app a b : outs_of (a ++ b) = outs_of a ++ outs_of b.
+Proof. apply flat_map_app. Qed.
+
+(* the outcome calls of a run, read off the exceptions collected and the handler list *)
+Definition kinds (p : prog) (hs : list handler) (X : list exc) : list outcome :=
+  match p_skip p with
+  | Some _ => [OSkip]
+  | None => match choose hs X with
+            | None => [OSuccess]
+            | Some e => match lookup hs e with
+                        | Some h => match h_out h with Some o => [o] | None => [] end
+                        | None => match last_resort with Some o => [o] | None => [] end
+                        end
+            end
+  end.
+Lemma outs_of_conclude p hs X D : outs_of (fst (fst (conclude p hs X D))) = kinds p hs X.
+Proof.
+  unfold conclude, kinds. destruct (p_skip p); [reflexivity|]. destruct (choose hs X) as [e|]; [|reflexivity].
+  destruct (lookup hs e) as [h|]; cbn [fst]; [destruct (h_out h) | destruct last_resort]; reflexivity.
+Qed.
+
+(* which outcomes a run reports that starts with force_failure = f0 and the inserted handlers u0 *)
+Definition outs_for (p : prog) (f0 : bool) (u0 : list (cls * outcome)) : list outcome :=
+  kinds p (handlers_of (rev (inserted p) ++ u0)) (collected_run p f0).
 
 Lemma observe_spec p s0 :
   exists r s,
@@ -63,36 +84,66 @@ Lemma observe_spec p s0 :
     /\ map shape (r_log r) = expected_log p
     /\ r_left r = 0
     /\ r_attrs r = attrs s0
-    /\ r_outs r = outs_for p (force s0)
+    /\ r_outs r = outs_for p (force s0) (uh s0)
     /\ attrs s = attrs s0 /\ stack s = []
-    /\ force s = force s0 || (negb (skipped p) && forced p).
+    /\ force s = force s0 || (negb (skipped p) && forced p)
+    /\ uh s = rev (inserted p) ++ uh s0.
 Proof.
-  unfold observe. destruct (run_from_spec p (set_tr [] (set_log [] s0))) as (s & d & R & L & X & F & K & A & C).
+  unfold observe. pose proof (run_from_spec p (set_tr [] (set_log [] s0))) as H. cbv zeta in H.
+  destruct H as (s & tr0 & R & L & X & F & K & A & U & T & C & _ & _).
   rewrite R. eexists. exists s. split; [reflexivity|]. cbn [r_log r_left r_attrs r_outs].
-  cbn [log tr force attrs set_tr set_log calls filter app map] in *.
+  cbn [log tr force attrs uh set_tr set_log calls filter app map] in *.
   split; [exact L|]. split; [rewrite K; reflexivity|]. split; [exact A|].
-  split; [|split; [exact A | split; [exact K | exact F]]].
-  rewrite outs_of_calls, C. unfold outs_for. destruct (fst (verdict p (force s0))); reflexivity.
+  split; [|split; [exact A | split; [exact K | split; [exact F | exact U]]]].
+  rewrite T, !outs_of_app, (outs_of_calls tr0), C, outs_of_conclude. cbn. rewrite app_nil_r. reflexivity.
 Qed.
 
-(* a failure forced in the first run is forced again by the second: the verdict is the same *)
-Lemma verdict_rerun p : verdict p (negb (skipped p) && forced p) = verdict p false.
+(* ---------- the second run decides as the first ---------- *)
+Lemma find_ext' {A} (f g : A -> bool) l : (forall x, f x = g x) -> find f l = find g l.
+Proof. intros H. induction l as [|x r IH]; simpl; [reflexivity|]. rewrite H, IH. reflexivity. Qed.
+Lemma find_app' {A} (f : A -> bool) a b :
+  find f (a ++ b) = match find f a with Some x => Some x | None => find f b end.
+Proof. induction a as [|x r IH]; simpl; [reflexivity|]. destruct (f x); [reflexivity | exact IH]. Qed.
+
+Lemma claims_dup a b e : claims (handlers_of (a ++ a ++ b)) e = claims (handlers_of (a ++ b)) e.
 Proof.
-  unfold verdict. destruct (skipped p); [reflexivity|]. cbn [negb andb]. unfold collected.
-  cbn [orb]. now rewrite orb_diag.
+  unfold claims, handlers_of. rewrite !map_app, !existsb_app.
+  destruct (existsb _ (map user_handler a)); reflexivity.
+Qed.
+Lemma lookup_dup a b e : lookup (handlers_of (a ++ a ++ b)) e = lookup (handlers_of (a ++ b)) e.
+Proof.
+  unfold lookup, handlers_of. rewrite !map_app, <- !app_assoc, !find_app'.
+  destruct (find _ (map user_handler a)); reflexivity.
+Qed.
+Lemma choose_dup a b X : choose (handlers_of (a ++ a ++ b)) X = choose (handlers_of (a ++ b)) X.
+Proof.
+  unfold choose. destruct (rev X); [reflexivity|].
+  rewrite (find_ext' _ (fun e => negb (claims (handlers_of (a ++ b)) e))); [reflexivity|].
+  intros x. now rewrite claims_dup.
+Qed.
+
+(* force_failure and the inserted handlers are not reset; what set them in the first run sets them again *)
+Lemma outs_rerun p u0 :
+  outs_for p (false || (negb (skipped p) && forced p)) (rev (inserted p) ++ u0) = outs_for p false u0.
+Proof.
+  unfold outs_for, kinds, collected_run, skipped. destruct (p_skip p); [reflexivity|]. cbn [negb andb orb].
+  assert (E : collected p (forced p) = collected p false).
+  { unfold collected. cbn [orb]. now rewrite orb_diag. }
+  rewrite E, choose_dup. destruct (choose _ _) as [e|]; [|reflexivity]. now rewrite lookup_dup.
 Qed.
 
 Theorem model_meets_spec i : wf i = true -> spec_okb i (model i) = true.
 Proof.
   intros _. unfold model.
-  destruct (observe_spec (i_prog i) (init (i_attrs i))) as (r1 & s1 & O1 & L1 & K1 & A1 & U1 & A1' & St1 & F1).
+  destruct (observe_spec (i_prog i) (init (i_prog i) (i_attrs i)))
+    as (r1 & s1 & O1 & L1 & K1 & A1 & U1 & A1' & St1 & F1 & H1).
   rewrite O1.
-  destruct (observe_spec (i_prog i) s1) as (r2 & s2 & O2 & L2 & K2 & A2 & U2 & A2' & St2 & F2).
+  destruct (observe_spec (i_prog i) s1) as (r2 & s2 & O2 & L2 & K2 & A2 & U2 & A2' & St2 & F2 & H2).
   rewrite O2. unfold spec_okb, run_okb. cbn [o_first o_second].
-  cbn [attrs force init] in *. rewrite A1' in A2.
-  rewrite L1, L2, K1, K2, A1, A2, U1, U2, F1. cbn [orb].
+  cbn [attrs force uh init] in *. rewrite A1' in A2.
+  rewrite L1, L2, K1, K2, A1, A2, U1, U2, F1, H1.
   rewrite !(proj2 (list_eqb_spec lsh_eqb lsh_eqb_spec _ _) eq_refl), same_attrs_refl. cbn [Nat.eqb andb].
-  apply (list_eqb_spec outcome_eqb outcome_eqb_spec). unfold outs_for. now rewrite verdict_rerun.
+  apply (list_eqb_spec outcome_eqb outcome_eqb_spec). apply outs_rerun.
 Qed.
 
 Theorem spec_okb_sound i o : spec_okb i o = true -> Spec i o.
@@ -115,74 +166,72 @@ Section act_ind'.
   Hypothesis HO : forall a, (forall t body, a <> ACleanup t body) -> P a.
   Fixpoint act_ind' (a : act) : P a.
   Proof.
-    destruct a as [n loc | loc v | mm | mm | t body | x v | fx | h | | r p | e];
+    destruct a as [n loc | loc v | mm | mm | t body | x v | fx | h | | c o | r p | e];
       try (apply HO; intros; discriminate).
     apply HC. induction body as [|x r IH]; constructor; [apply act_ind' | exact IH].
   Defined.
 End act_ind'.
 
-(* the functions handed to addCleanup by the statements that get executed, directly or inside a
-   cleanup that runs - in program order *)
-Fixpoint reg_act (a : act) : list (nat * list act) :=
+(* everything the statements that get executed - directly or inside a cleanup that runs - hand to
+   addCleanup, in program order: functions, the undo of each patch(), and for a fixture whose
+   set-up succeeded its cleanUp and then the gathering of its details *)
+Fixpoint reg_act (a : act) : list entry :=
   match a with
   | ACleanup t body =>
-      (t, body) ::
-      (fix go (l : list act) : list (nat * list act) :=
+      EUser t body ::
+      (fix go (l : list act) : list entry :=
          match l with
          | [] => []
          | x :: r => reg_act x ++ match act_raise x with Some _ => [] | None => go r end
          end) body
+  | APatch a _ => [ERestore a]
+  | AFixture fx => match fixture_raise fx with Some _ => [] | None => [EFx fx; EGather fx] end
   | _ => []
   end.
-Fixpoint reg_acts (l : list act) : list (nat * list act) :=
+Fixpoint reg_acts (l : list act) : list entry :=
   match l with
   | [] => []
   | x :: r => reg_act x ++ match act_raise x with Some _ => [] | None => reg_acts r end
   end.
-Definition registered (p : prog) : list (nat * list act) :=
+Definition registered (p : prog) : list entry :=
   reg_acts (snd (p_setup p))
   ++ (if setup_returns p then reg_acts (snd (p_body p)) ++ reg_acts (snd (p_teardown p)) else []).
 
-(* the functions the cleanup phase calls, in the order it calls them *)
-Definition user_entries (l : list entry) : list (nat * list act) :=
-  flat_map (fun e => match e with EUser t b => [(t, b)] | _ => [] end) l.
-Lemma user_entries_app a b : user_entries (a ++ b) = user_entries a ++ user_entries b.
-Proof. apply flat_map_app. Qed.
-
-Lemma reg_act_cleanup t b : reg_act (ACleanup t b) = (t, b) :: reg_acts b.
+Lemma reg_act_cleanup t b : reg_act (ACleanup t b) = EUser t b :: reg_acts b.
 Proof. reflexivity. Qed.
 
 Lemma raising_registers_nothing x e : act_raise x = Some e -> reg_act x = [].
-Proof. destruct x; simpl; try discriminate; reflexivity. Qed.
+Proof.
+  destruct x; simpl; try discriminate; try reflexivity. intros H. now rewrite H.
+Qed.
 
 Lemma pending_perm_list l :
-  Forall (fun a => Permutation (user_entries (act_entries a)) (reg_act a)) l ->
-  Permutation (user_entries (pending l)) (reg_acts l).
+  Forall (fun a => Permutation (act_entries a) (reg_act a)) l ->
+  Permutation (pending l) (reg_acts l).
 Proof.
   induction 1 as [|x r Hx Hr IH]; [constructor|]. cbn [pending reg_acts].
   destruct (act_raise x) as [e|] eqn:E.
   - rewrite (raising_registers_nothing x e E). constructor.
-  - rewrite user_entries_app. eapply perm_trans; [apply Permutation_app_comm|].
+  - eapply perm_trans; [apply Permutation_app_comm|].
     apply Permutation_app; assumption.
 Qed.
 
-Lemma act_entries_perm a : Permutation (user_entries (act_entries a)) (reg_act a).
+Lemma act_entries_perm a : Permutation (act_entries a) (reg_act a).
 Proof.
   induction a as [t body IH | a Ha] using act_ind'.
-  - rewrite act_entries_cleanup, reg_act_cleanup. cbn [user_entries flat_map app]. constructor.
+  - rewrite act_entries_cleanup, reg_act_cleanup. constructor.
     apply pending_perm_list. exact IH.
-  - destruct a; try (exfalso; eapply Ha; reflexivity); simpl; try constructor.
-    destruct (fixture_raise fx); constructor.
+  - destruct a; try (exfalso; eapply Ha; reflexivity); simpl; try apply Permutation_refl.
+    destruct (fixture_raise fx); [constructor | apply perm_swap].
 Qed.
 
-Lemma pending_perm l : Permutation (user_entries (pending l)) (reg_acts l).
+Lemma pending_perm l : Permutation (pending l) (reg_acts l).
 Proof. apply pending_perm_list. apply Forall_forall. intros a _. apply act_entries_perm. Qed.
 
-Theorem once p : Permutation (user_entries (cleanup_entries p)) (registered p).
+Theorem once p : Permutation (cleanup_entries p) (registered p).
 Proof.
   unfold cleanup_entries, registered. destruct (setup_returns p).
-  - rewrite !user_entries_app.
-    eapply perm_trans; [apply Permutation_app_comm|].
+  - eapply perm_trans; [apply Permutation_app_comm|].
     eapply perm_trans; [apply Permutation_app_tail, Permutation_app_comm|].
     rewrite <- app_assoc.
     apply Permutation_app; [apply pending_perm|].
@@ -208,6 +257,12 @@ Proof.
   destruct (observe_spec p s0) as (r & s & O & L & K & A & _). exists r, s. repeat split; assumption.
 Qed.
 
+Theorem stack_empty p s0 : stack (snd (observe p s0)) = [] /\ r_left (fst (observe p s0)) = 0.
+Proof. destruct (observe_spec p s0) as (r & s & O & L & K & A & _ & _ & St & _). rewrite O. split; assumption. Qed.
+
+Theorem patch_restored p s0 k : aget k (r_attrs (fst (observe p s0))) = aget k (attrs s0).
+Proof. destruct (observe_spec p s0) as (r & s & O & L & K & A & _). rewrite O. cbn [fst]. now rewrite A. Qed.
+
 Theorem rerun i :
   let o := model i in
   map shape (r_log (o_second o)) = map shape (r_log (o_first o))
@@ -215,10 +270,41 @@ Theorem rerun i :
   /\ r_attrs (o_second o) = i_attrs i /\ r_attrs (o_first o) = i_attrs i.
 Proof.
   unfold model.
-  destruct (observe_spec (i_prog i) (init (i_attrs i))) as (r1 & s1 & O1 & L1 & K1 & A1 & U1 & A1' & St1 & F1).
+  destruct (observe_spec (i_prog i) (init (i_prog i) (i_attrs i)))
+    as (r1 & s1 & O1 & L1 & K1 & A1 & U1 & A1' & St1 & F1 & H1).
   rewrite O1.
-  destruct (observe_spec (i_prog i) s1) as (r2 & s2 & O2 & L2 & K2 & A2 & U2 & A2' & St2 & F2).
-  rewrite O2. cbn [o_first o_second]. cbn [attrs force init orb] in *.
+  destruct (observe_spec (i_prog i) s1) as (r2 & s2 & O2 & L2 & K2 & A2 & U2 & A2' & St2 & F2 & H2).
+  rewrite O2. cbn [o_first o_second]. cbn [attrs force uh init] in *.
   split; [congruence|]. split; [|split; congruence].
-  rewrite U1, U2, F1. unfold outs_for. now rewrite verdict_rerun.
+  rewrite U1, U2, F1, H1. apply outs_rerun.
+Qed.
+
+(* two registrations of one body: the later one runs first, each followed at once by what it
+   registers itself, before everything registered earlier *)
+Lemma acts_raise_app a b : acts_raise (a ++ b) = match acts_raise a with Some e => Some e | None => acts_raise b end.
+Proof. induction a as [|x r IH]; simpl; [reflexivity|]. destruct (act_raise x); [reflexivity | exact IH]. Qed.
+
+Theorem lifo_pair l1 a1 l2 a2 l3 :
+  acts_raise (l1 ++ a1 :: l2 ++ [a2]) = None ->
+  pending (l1 ++ a1 :: l2 ++ a2 :: l3)
+  = pending l3 ++ act_entries a2 ++ pending l2 ++ act_entries a1 ++ pending l1.
+Proof.
+  intros H. rewrite acts_raise_app in H. destruct (acts_raise l1) eqn:H1; [discriminate|].
+  cbn [acts_raise] in H. destruct (act_raise a1) eqn:Ha1; [discriminate|].
+  rewrite acts_raise_app in H. destruct (acts_raise l2) eqn:H2; [discriminate|].
+  cbn [acts_raise] in H. destruct (act_raise a2) eqn:Ha2; [discriminate|].
+  rewrite (pending_app _ _ H1). cbn [pending]. rewrite Ha1, (pending_app _ _ H2). cbn [pending]. rewrite Ha2.
+  rewrite <- !app_assoc. reflexivity.
+Qed.
+
+(* the literal pop-run-repeat machine on any stack *)
+Theorem cleanups_lifo fuel s :
+  stack_size (stack s) <= fuel ->
+  exists s' failing, run_cleanups fuel s = (s', failing, false)
+    /\ map shape (log s') = map shape (log s) ++ flat_map entry_log (entries_of (stack s))
+    /\ excs s' = excs s ++ flat_map (fun e => caught (entry_raise e)) (entries_of (stack s))
+    /\ stack s' = [] /\ attrs s' = undo_all (stack s) (attrs s).
+Proof.
+  intros H. destruct (run_cleanups_spec fuel s H) as (s' & failing & R & [L X _ _ _ _] & _ & K & A).
+  exists s', failing. repeat split; assumption.
 Qed.
